@@ -37,6 +37,9 @@ def run_property(prop: str, tier: str, only_rule: str | None = None, only_key: s
         mod.run(ctx)
         if tier == "thorough" and hasattr(mod, "run_thorough") and not quiet:
             mod.run_thorough(ctx)
+        if ctx.floor_misses and not ctx.findings:
+            err = "; ".join(ctx.floor_misses)
+        ctx.notes.extend(ctx.floor_misses)
     except AnalysisError as exc:
         err = str(exc)
     except Exception as exc:  # checker bug: never dress it up as a violation
